@@ -6,6 +6,8 @@ props = [json.loads(l) for l in open(os.path.join(V, "properties.jsonl"))]
 ids = [p["id"] for p in props]
 
 CLAIMED = {
+ "C11": ("model_checking", "TLC invariants SMPSuccessSound/SMPFailureSound/SMPNotStuck over all interleavings of SMP user calls and deliveries (either initiator, question, abort, restarts, traffic in between, v2 and v3); exported schedules and seeded SMP-heavy runs with secrets ranging over empty, one byte, 64 KiB, all byte values, one-bit and length differences on the real code; a relay between two separately keyed sessions (attacker-run endpoints passing SMP payloads verbatim); outcome events validated against the bound-secret-term rule of the specification", "6/C11"),
+ "C12": ("model_checking", "TLC over SMP calls and messages in every state, on the duplicating/reordering/dropping network; on the real code every MPI field of every SMP message replaced by each boundary value (0,1,p-1,p,p+1,q,random,honest+-1), element miscounts, question without terminator, a degenerate message 2 with consistent proofs, each inside a properly authenticated data message, each followed by an honest run that must succeed; panic/time/allocation monitored", "6/C12"),
  "C01": ("model_checking", "TLC invariants AuthInv/AgreeInv on every start pattern and on the reordering/duplicating/dropping network; on the real code: every TLC-exported handshake schedule with tampered copies (every field; every byte and cut in the thorough tier) and tampered replacements of each AKE message, plus an attack catalogue with an active attacker E built from the independent reference (impersonation with and without the victim's key claimed, signature over swapped values, wrong key set, degenerate DH values 0,1,p-1,p,p+1 with the matching shared secret, cross-session replay of both roles, reflection), in a fresh and in an already encrypted victim, v2 and v3; each step validated by TLC against OTR.tla and AuthInv evaluated on the observed state", "6/C01"),
  "C02": ("model_checking", "TLC invariants DeliveredAuthentic/AtMostOnce on the bag network; on the real code: data-phase schedules with tampered copies of every data message (each authenticated field, truncation, extension, key ids, counter, flag), injected plaintext, forgeries re-authenticated with every MAC key disclosed on the wire, reflection; PROP C02 (no plaintext from attacker input unless flagged) and exact conformance of results", "6/C02"),
  "C06": ("model_checking", "every rejected tampered message (copies inserted before every delivery of every exported schedule, AKE, data and lifecycle scenarios) must leave the projected conversation state exactly unchanged (trace property C06), the rest of the schedule must conform to the specification and still complete (C04/C07 properties in the attacked runs)", "6/C06"),
